@@ -53,6 +53,7 @@ type Contract struct {
 	HdrRecv  string
 	HdrName  string
 	Auto     bool
+	Uninterp bool // spec-level function symbol without definition
 	Callbacks map[string]*Callback
 	CallSites map[string][]*Clause // obligations at calls of the named callee inside this function
 	AllocBound []*Clause // `allocbound e`: every make() of the function allocates at most e bytes
@@ -121,7 +122,7 @@ type ContractSet struct {
 	Files  []string
 }
 
-var clauseKw = map[string]bool{"callsite": true, "forbid": true, "allocbound": true, "callback": true, "auto": true, "interface": true, "func": true, "pure": true, "opaque": true, "ghost": true, "call": true, "assume": true, "lemma": true, "arith": true, "requires": true,
+var clauseKw = map[string]bool{"uninterpreted": true, "callsite": true, "forbid": true, "allocbound": true, "callback": true, "auto": true, "interface": true, "func": true, "pure": true, "opaque": true, "ghost": true, "call": true, "assume": true, "lemma": true, "arith": true, "requires": true,
 	"ensures": true, "loop": true, "closure": true, "modifies": true, "claims": true, "cover": true, "inline": true,
 	"replay": true, "props": true, "split": true, "hint": true, "end": true}
 
@@ -228,7 +229,7 @@ func (cs *ContractSet) loadFile(path, pkg string) error {
 			continue
 		}
 		switch kw {
-		case "func", "pure", "assume", "opaque", "ghost", "interface":
+		case "func", "pure", "assume", "opaque", "ghost", "interface", "uninterpreted":
 			c := &Contract{PkgPath: pkg, Loops: map[int][]*Clause{}, Closures: map[int]*Contract{}, Claims: map[string]bool{},
 				Inline: map[string]bool{}, File: path, Line: l.line, Header: l.text}
 			hdr := l.text
@@ -241,6 +242,8 @@ func (cs *ContractSet) loadFile(path, pkg string) error {
 					c.Pure = true
 				} else if f[0] == "opaque" {
 					c.Opaque = true
+				} else if f[0] == "uninterpreted" {
+					c.Uninterp = true
 				} else if f[0] == "ghost" {
 					c.Ghost = true
 				} else if f[0] == "interface" {
@@ -706,6 +709,12 @@ func parseHeader(c *Contract, hdr, pkg string) error {
 		}
 	} else if s != "" {
 		c.SpecRTy = s
+	}
+	if c.Uninterp {
+		// `uninterpreted func f(params) T`: a spec-level function symbol without a definition
+		c.IsSpec = true
+		c.Key = name
+		return nil
 	}
 	if body != "" {
 		e, err := ParseExpr(body)
